@@ -155,7 +155,7 @@ pub fn drive(seed: u64, n: usize, out: &mut Out) -> Result<(), String> {
             } else if x < 75 {
                 let p = *contacted.choose(&mut rng).unwrap();
                 let k = rng.gen_range(0..=3);
-                let news: Vec<Value> = (0..k).map(|_| { let q = rng.gen_range(1..=npeers); json!([q, m(q)]) }).filter(|v| v[0] != p).collect();
+                let news: Vec<Value> = (0..k).map(|_| { let q = rng.gen_range(1..=npeers); json!([q, if rng.gen_range(0..5) == 0 { !m(q) } else { m(q) }]) }).filter(|v| v[0] != p).collect();
                 json!({"o": "on_success", "p": p, "news": news})
             } else if x < 85 {
                 json!({"o": "on_failure", "p": *contacted.choose(&mut rng).unwrap()})
